@@ -96,6 +96,27 @@ def loc_field_path(prog, frame, cell, loc):
     return names
 
 
+def arg_slots(site):
+    """placeholder piece (by position in site['pieces']) -> index of its value in the run-time argument array. The compiler builds
+    that array from the distinct (argument, trait) pairs in the order the placeholders first use them, a width / precision taken
+    from an argument following its placeholder's value as a `usize` entry (width first)."""
+    slots = {}
+    out = {}
+    for i, pc in enumerate(site["pieces"]):
+        if not isinstance(pc, dict):
+            continue
+        k = (pc["arg"], pc["trait"])
+        if k not in slots:
+            slots[k] = len(slots)
+        out[i] = slots[k]
+        for ca in (pc.get("width_arg"), pc.get("precision_arg")):
+            if isinstance(ca, int) and ca >= 0:
+                k2 = (ca, "usize")
+                if k2 not in slots:
+                    slots[k2] = len(slots)
+    return out
+
+
 def truncating_specs(idx, outs, seen=None):
     """placeholders exercised by the write_fmt events of `outs` whose format spec carries a precision although the argument is not a
     floating-point number: for strings (and everything printed through `Formatter::pad`) a precision cuts the text off"""
@@ -109,16 +130,17 @@ def truncating_specs(idx, outs, seen=None):
             site = find_site(idx, e["span"])
             if site is None:
                 continue
-            for pc in site["pieces"]:
+            slots = arg_slots(site)
+            for pi, pc in enumerate(site["pieces"]):
                 if not isinstance(pc, dict) or pc.get("precision") is None:
                     continue
-                ai = pc["arg"]
-                if not isinstance(ai, int) or ai < 0 or ai >= len(e["args"]):
+                ai = slots[pi]
+                if ai >= len(e["args"]):
                     continue
                 tr, ty, v = e["args"][ai]
                 if isinstance(v, FloatVal) or str(ty).lstrip("&").strip() in ("f64", "f32"):
                     continue
-                expr = site["args"][ai]["expr"] if ai < len(site["args"]) else "?"
+                expr = site["args"][pc["arg"]]["expr"] if 0 <= pc["arg"] < len(site["args"]) else "?"
                 found.append((site, pc, expr, ty, v))
     return found
 
@@ -187,11 +209,12 @@ def render_rules(rep, prog, oks):
                     continue
                 sites_seen.add((site["span"]["file"], site["span"]["lo"][0], site["span"]["lo"][1]))
                 prev = ""
-                for pc in site["pieces"]:
+                slots = arg_slots(site)
+                for pi, pc in enumerate(site["pieces"]):
                     if isinstance(pc, str):
                         prev = pc
                         continue
-                    ai = pc["arg"]
+                    ai = slots[pi]
                     if ai < 0 or ai >= len(e["args"]):
                         continue
                     tr, ty, v = e["args"][ai]
